@@ -8,6 +8,9 @@ CHECKS = {
     'C12': ('cycles_check', 'C12'),
     'C13': ('cycles_check', 'C13'),
     'C16': ('maps_check', None),
+    'C04': ('sift_check', 'C04'),
+    'C01': ('sift_check', 'C01'),
+    'C03': ('sift_check', 'C03'),
     'C05': ('extrema_check', None),
     'C10': ('spectra_check', 'C10'),
     'C11': ('spectra_check', 'C11'),
